@@ -47,7 +47,7 @@ func newEngine() (*Engine, error) {
 		notes: map[string]bool{}, modsets: map[*ssa.Function]*ModSet{}, externs: map[string]externFn{}, heapSorts: map[string]string{},
 		loopCache: map[*ssa.Function]map[*ssa.BasicBlock]*loopInfo{}, usedExterns: map[string]bool{}, usedContracts: map[string]bool{},
 		externMods: map[string][]string{}, pureExterns: map[string]bool{}, inlineExtern: map[string]bool{}, ifaceIDs: map[string]int{},
-		extFuncs: map[string]string{}, fset: fset, evalExt: map[string]map[string]bool{}, evalSym: map[string]string{}}
+		extFuncs: map[string]string{}, fset: fset, evalExt: map[string]map[string]bool{}, evalSym: map[string]string{}, globalConst: map[string]string{}}
 	for _, p := range prog.AllPackages() {
 		e.pkgs[p.Pkg.Path()] = p
 		e.allTypesPkgs = append(e.allTypesPkgs, p.Pkg)
@@ -56,7 +56,8 @@ func newEngine() (*Engine, error) {
 	e.mainPkg = spkgs
 	e.corePrelude()
 	e.collectTypes()
-	for fn := range ssautil.AllFunctions(prog) {
+	e.allFuncs = ssautil.AllFunctions(prog)
+	for fn := range e.allFuncs {
 		if e.analysed(fn) {
 			e.funcs[e.shortName(fn)] = fn
 		}
@@ -535,11 +536,13 @@ func main() {
 		os.Exit(e.checkProperty(pos[0], *tier, seed, *only))
 	case "func":
 		rep := e.verifyFunc(pos[0])
+		os.RemoveAll(filepath.Join(verifDir, "out", "func"))
 		e.solveAll(rep.Obligations, filepath.Join(verifDir, "out", "func"), 10, 8)
 		for _, o := range rep.Obligations {
 			if o.Status != "discharged" || *verbose {
 				fmt.Printf("%-10s %-70s %s %.2fs %s\n", o.Status, o.Name, o.Pos, o.Time, o.Output)
 				if o.Status != "discharged" && *verbose {
+					fmt.Println("   path:", strings.Join(o.Trace, " / "))
 					fmt.Println("   goal:", o.Goal)
 					fmt.Println("   file:", o.File)
 				}
@@ -548,7 +551,12 @@ func main() {
 		for _, er := range rep.Errors {
 			fmt.Println("error:", er)
 		}
+		for n := range e.notes {
+			fmt.Println("note:", n)
+		}
 		fmt.Printf("%s: %d obligations, %d return paths, %d trivial\n", pos[0], len(rep.Obligations), rep.Paths, rep.Trivial)
+	case "modset":
+		e.debugModset(pos[0])
 	case "list":
 		var ns []string
 		for n, c := range e.contracts {
